@@ -469,6 +469,23 @@ impl<E: std::fmt::Display> IntoWitness for Result<Vec<Fr>, E> {
     }
 }
 
+pub fn into_witness_pub<T: IntoWitnessPub>(x: T) -> Result<Vec<Fr>, String> {
+    x.conv()
+}
+pub trait IntoWitnessPub {
+    fn conv(self) -> Result<Vec<Fr>, String>;
+}
+impl IntoWitnessPub for Vec<Fr> {
+    fn conv(self) -> Result<Vec<Fr>, String> {
+        Ok(self)
+    }
+}
+impl<E: std::fmt::Display> IntoWitnessPub for Result<Vec<Fr>, E> {
+    fn conv(self) -> Result<Vec<Fr>, String> {
+        self.map_err(|e| e.to_string())
+    }
+}
+
 fn to_bigints(w: &[Fr]) -> Vec<num_bigint::BigInt> {
     w.iter().map(|f| num_bigint::BigInt::from(fr_to_biguint(f))).collect()
 }
